@@ -318,7 +318,7 @@ Qed.
 Definition reg_of (registry : list string) : smap unit :=
   fold_left (fun m s => sm_set (to_key s) tt m) registry sm_empty.
 Definition macro_ok (e : sentry) : bool :=
-  is_macro e && match sget_value e with Some v => v_repr_ok v | None => true end.
+  is_macro e && match sget_value e with Some v => v_repr_ok v | None => false end.
 Definition section_ok (e : sentry) : bool := negb (is_macro e) && negb (is_constant e).
 Definition macro_entries (entries : list sentry) : list sentry :=
   sort_stable full_key full_key_ltb (filter macro_ok entries).
